@@ -651,6 +651,8 @@ func Run(r *ev.Run) {
 	}
 	r.Set("cases", total)
 	r.Set("cases_executed_by_workers", done)
+	// deadline clause: scheduler-based exploration by the instrumented binary
+	r.RunSub(os.Getenv("VERIF_INSTR_BIN"), "C08D", "deadline_clause")
 	if done != total {
 		r.Cap(fmt.Sprintf("workers executed %d of %d cases", done, total))
 	}
